@@ -83,7 +83,7 @@ pub fn case(words: &[u16]) -> Case {
                 ver
             })
             .collect();
-        cas.push(Ca { parent, key: i, module, not_after: 86400 * 365, cert_fault: None, versions, extra_res: None, ta_alt: vec![], sia_under_parent_mft: false });
+        cas.push(Ca { parent, key: i, module, not_after: 86400 * 365, cert_fault: None, versions, extra_res: None, ta_alt: vec![], sia_under_parent_mft: false, rrdp: None });
         presence.push(if parent.is_some() && d.chance(1, 2) { patterns[d.below(6)].to_vec() } else { vec![true; 3] });
     }
     // a moved CA: same key and parent as an existing non-root CA, another module, complementary presence
@@ -111,7 +111,7 @@ pub fn case(words: &[u16]) -> Case {
         let publish = cas.iter().map(|ca| s.min(ca.versions.len() - 1)).collect();
         let fail_modules = (0..MODULES).filter(|_| d.chance(1, 8)).collect();
         let offline = s > 0 && d.chance(1, 10);
-        steps.push(Step { publish, fail_modules, offline, stale: None, foreign_tal_key: vec![], ta_serve: vec![] });
+        steps.push(Step { publish, fail_modules, offline, stale: None, foreign_tal_key: vec![], ta_serve: vec![], fail_rrdp: vec![] });
         let mode = if s == 0 || !d.chance(1, 3) { Mode::Normal } else { d.pick(&[Mode::ForcedRetry, Mode::ForcedFatal, Mode::Initial, Mode::PointBlocked(0), Mode::PointBlocked(1), Mode::PointBlocked(2)]) };
         modes.push(match mode {
             Mode::PointBlocked(_) => Mode::PointBlocked(d.below(8) as u8),
@@ -523,6 +523,11 @@ pub fn run(ctx: &Ctx, rep: &mut Report, replay: Option<&serde_json::Value>) {
     rep.assume("forced outcomes use the verif hook and are serialised process-wide");
     ctx.shrink_iters.store(40, std::sync::atomic::Ordering::Relaxed);
     if let Some(v) = replay {
+        if v.get("sub").and_then(|s| s.as_str()) == Some("rrdp") {
+            let t: Tagged<Scenario> = serde_json::from_value(v.clone()).expect("replay");
+            run_case(ctx, rep, &t.sub, &t.case, rrdp_prop);
+            return;
+        }
         let t: Tagged<Case> = serde_json::from_value(v.clone()).expect("replay");
         run_case(ctx, rep, &t.sub, &t.case, prop);
         return;
@@ -531,10 +536,73 @@ pub fn run(ctx: &Ctx, rep: &mut Report, replay: Option<&serde_json::Value>) {
     if ctx.tier == Tier::Thorough {
         run_prop_par(ctx, rep, "expiry", 64, 8, || genome(300).prop_map(|w| expiry_case(&w)), prop);
     }
+    rep.rule("(rrdp) E-rpki histories of 2-4 runs in which every CA is published through one of 2 RRDP repositories with chance 1/2, child CAs vanish from / appear in single versions of their parent's manifest (4/16 per child), notifications fail (4/16 per repository and run), modules are unreachable, runs are offline, dirty is on 1 in 8; oracle after every run (shared judge): the stored points of the model are present and byte-identical under the path keyed by rpkiNotify, the payload equals the model's (so the retained data is usable), and the local archive of every RRDP repository the model retains (updated or tried in this run, or referred to by a retained stored point) exists; non-trivial = a repository failed in a run after one that stored a point of one of its CAs, or a CA published through RRDP with a stored point vanished from its parent's manifest");
+    run_prop_par(ctx, rep, "rrdp", ctx.tier.pick(80, 1600), 8, || (genome(260), rrdp_genome(), genome(24)).prop_map(|(w, r, k)| rrdp_case(&w, &r, &k)), rrdp_prop);
     // a run in which most histories could not be judged says nothing: infrastructure failure
     let dropped: u64 = rep.dropped.values().sum();
     if !rep.violated() && dropped * 2 > rep.evaluations {
         eprintln!("C40: {} of {} histories were dropped ({:?}); no verdict", dropped, rep.evaluations, rep.dropped);
         std::process::exit(2);
     }
+}
+
+//------------------------------------------------------------------------------------------
+// Sub-check "rrdp": retention of RRDP-keyed stored points and local RRDP archives
+
+fn rrdp_case(words: &[u16], rwords: &[u16], kwords: &[u16]) -> Scenario {
+    let mut hp = HistProfile::default();
+    hp.base.fault_16 = 2;
+    hp.base.obj_faults = false;
+    hp.base.rrdp_16 = 8;
+    hp.fail_rrdp_16 = 4;
+    hp.offline_16 = 2;
+    let mut sc = history_run_rrdp(words, rwords, &hp);
+    let mut d = D::new(kwords);
+    sc.cfg.dirty = d.chance(1, 8);
+    for j in 0..sc.cas.len() {
+        let vanish = d.chance(4, 16);
+        let which = d.below(3);
+        if let Some(p) = sc.cas[j].parent {
+            let nv = sc.cas[p].versions.len();
+            if vanish && nv > 0 {
+                sc.cas[p].versions[which.min(nv - 1)].omit_children.push(j);
+            }
+        }
+    }
+    sc
+}
+
+fn rrdp_prop(sc: &Scenario, info: &mut CaseInfo) -> Verdict {
+    let j = crate::erun::Judge { id: "C40/rrdp", sound: true, complete: true, store: true, archives: true, ..Default::default() };
+    let mut failed_after_stored = false;
+    let mut vanished_with_stored = false;
+    let (v, _seen) = crate::erun::judge_rrdp(&j, sc, info, |_, obs| {
+        for (i, ca) in sc.cas.iter().enumerate() {
+            let Some(r) = ca.rrdp else { continue };
+            if !obs.state.stored.contains_key(&i) {
+                continue;
+            }
+            if obs.exp.rrdp.get(&r) == Some(&RrdpOutcome::Current) {
+                failed_after_stored = true;
+            }
+            if obs.exp.skipped.contains(&i) && !obs.step.offline {
+                vanished_with_stored = true;
+            }
+        }
+        None
+    });
+    info.nontrivial = failed_after_stored || vanished_with_stored;
+    if failed_after_stored {
+        info.class("rrdp:failed_after_point_stored");
+    }
+    if vanished_with_stored {
+        info.class("rrdp:ca_with_stored_point_not_reached");
+    }
+    if sc.cfg.dirty {
+        info.class("dirty");
+    }
+    for c in history_classes(sc) {
+        info.class(c);
+    }
+    v
 }
